@@ -1,2 +1,504 @@
-From OFGA Require Import Check.V1.
-Example placeholder : or3 T E = T. Proof. reflexivity. Qed.
+(* C01: Check decisions match the model's relation semantics.
+
+   Statements only.  Models: Sem/{B3,Vocab,Valid,Semantics}.v (reference semantics holds3 = Kleene
+   least fixpoint, stratum by stratum) and Check/V1.v (algorithm model of the default engine,
+   outcome SETS, trigger flags for the two reproduced defects).  Proofs: Sem/B3Proofs.v,
+   Sem/SemProofs.v, Check/V1Proofs.v.
+
+   What is proved (for ALL models / stores / requests / fuels / depths unless a hypothesis says
+   otherwise):
+     A. Kleene algebra; arrival order of children is irrelevant to or3_list / and3_list.
+     B. The engine's reducers compute Kleene or / and / difference on outcome sets, for every
+        arrival order; `exclusion` deviates exactly when the subtract branch reports
+        "denied + CycleDetected" (F1) -- excl2_kleene_partial + excl2_deviation_iff.
+     C. The reference semantics is well defined: a reported convergence is a fixpoint; for
+        models without difference the iteration converges within the fuel it is given and is
+        the least pre-fixpoint; holds3 ignores invalid tuples and the order of the store, and is
+        monotone in the tuple set (positive fragment).
+     D. Algorithm versus specification: every `allowed` the engine can return for a model
+        without difference is forced by the least fixpoint (check_sound_positive_holds3), with
+        conditional tuples in all three states, for every depth limit, PathExists pruning,
+        visited path and fuel; the model's fuel bound (check_no_fuel).
+     E. The full statement C01_full_statement is REFUTED by the faithful model with the two
+        witnesses of checks/C01.findings.json (each raises its trigger flag).
+   What is NOT proved (see the comment before C01_full_statement in Check/V1Proofs.v): that a
+   denial implies value F (completeness of the path-based cycle cut), hence soundness of
+   `allowed` under a difference, and the characterisation of condition errors. *)
+From Coq Require Import List Bool Arith NArith Permutation.
+From OFGA Require Import Sem.B3 Sem.B3Proofs Sem.Vocab Sem.Valid Sem.Semantics Sem.SemProofs
+  Check.V1 Check.V1Proofs.
+Import ListNotations.
+Open Scope N_scope.
+
+(* ================================================================== *)
+(* A. Kleene logic                                                     *)
+(* ================================================================== *)
+
+Theorem or3_comm : forall a b, or3 a b = or3 b a.
+Proof. exact B3Proofs.or3_comm. Qed.
+Print Assumptions or3_comm.
+Theorem or3_assoc : forall a b c, or3 a (or3 b c) = or3 (or3 a b) c.
+Proof. exact B3Proofs.or3_assoc. Qed.
+Print Assumptions or3_assoc.
+Theorem or3_idem : forall a, or3 a a = a.
+Proof. exact B3Proofs.or3_idem. Qed.
+Print Assumptions or3_idem.
+Theorem or3_F_l : forall a, or3 F a = a.
+Proof. exact B3Proofs.or3_F_l. Qed.
+Print Assumptions or3_F_l.
+Theorem or3_T_l : forall a, or3 T a = T.
+Proof. exact B3Proofs.or3_T_l. Qed.
+Print Assumptions or3_T_l.
+Example or3_ex : or3 E T = T /\ or3 E F = E /\ or3 F F = F /\ or3 E E = E.
+Proof. repeat split; reflexivity. Qed.
+
+Theorem and3_comm : forall a b, and3 a b = and3 b a.
+Proof. exact B3Proofs.and3_comm. Qed.
+Print Assumptions and3_comm.
+Theorem and3_assoc : forall a b c, and3 a (and3 b c) = and3 (and3 a b) c.
+Proof. exact B3Proofs.and3_assoc. Qed.
+Print Assumptions and3_assoc.
+Theorem and3_idem : forall a, and3 a a = a.
+Proof. exact B3Proofs.and3_idem. Qed.
+Print Assumptions and3_idem.
+Theorem and3_T_l : forall a, and3 T a = a.
+Proof. exact B3Proofs.and3_T_l. Qed.
+Print Assumptions and3_T_l.
+Theorem and3_F_l : forall a, and3 F a = F.
+Proof. exact B3Proofs.and3_F_l. Qed.
+Print Assumptions and3_F_l.
+Example and3_ex : and3 E F = F /\ and3 E T = E /\ and3 T T = T /\ and3 E E = E.
+Proof. repeat split; reflexivity. Qed.
+
+Theorem or3_and3_absorb : forall a b, or3 a (and3 a b) = a.
+Proof. exact B3Proofs.or3_and3_absorb. Qed.
+Print Assumptions or3_and3_absorb.
+Theorem and3_or3_absorb : forall a b, and3 a (or3 a b) = a.
+Proof. exact B3Proofs.and3_or3_absorb. Qed.
+Print Assumptions and3_or3_absorb.
+Theorem and3_or3_distr : forall a b c, and3 a (or3 b c) = or3 (and3 a b) (and3 a c).
+Proof. exact B3Proofs.and3_or3_distr. Qed.
+Print Assumptions and3_or3_distr.
+
+Theorem de_morgan_or3 : forall a b, not3 (or3 a b) = and3 (not3 a) (not3 b).
+Proof. exact B3Proofs.de_morgan_or3. Qed.
+Print Assumptions de_morgan_or3.
+Theorem de_morgan_and3 : forall a b, not3 (and3 a b) = or3 (not3 a) (not3 b).
+Proof. exact B3Proofs.de_morgan_and3. Qed.
+Print Assumptions de_morgan_and3.
+Theorem not3_invol : forall a, not3 (not3 a) = a.
+Proof. exact B3Proofs.not3_invol. Qed.
+Print Assumptions not3_invol.
+Theorem diff3_T_iff : forall b s, diff3 b s = T <-> b = T /\ s = F.
+Proof. exact B3Proofs.diff3_T_iff. Qed.
+Print Assumptions diff3_T_iff.
+Example diff3_ex : diff3 T F = T /\ diff3 T E = E /\ diff3 T T = F /\ diff3 F E = F /\ diff3 E F = E.
+Proof. repeat split; reflexivity. Qed.
+
+(* arrival order of goroutine results cannot matter to the specification *)
+Theorem or3_list_perm : forall l l', Permutation l l' -> or3_list l = or3_list l'.
+Proof. exact B3Proofs.or3_list_perm. Qed.
+Print Assumptions or3_list_perm.
+Example or3_list_perm_ex :
+  Permutation [E; F; T; E] [T; E; E; F] /\ or3_list [E; F; T; E] = T /\ or3_list [T; E; E; F] = T.
+Proof.
+  split; [|split; reflexivity].
+  apply Permutation_trans with (l' := [E; T; F; E]).
+  - apply perm_skip. apply perm_swap.
+  - apply Permutation_trans with (l' := [T; E; F; E]); [apply perm_swap|].
+    apply perm_skip. apply perm_skip. apply perm_swap.
+Qed.
+Theorem and3_list_perm : forall l l', Permutation l l' -> and3_list l = and3_list l'.
+Proof. exact B3Proofs.and3_list_perm. Qed.
+Print Assumptions and3_list_perm.
+Example and3_list_perm_ex : Permutation [E; T; F] [E; F; T] /\ and3_list [E; T; F] = F.
+Proof. split; [apply perm_skip; apply perm_swap | reflexivity]. Qed.
+
+Theorem or3_list_T_iff : forall l, or3_list l = T <-> In T l.
+Proof. exact B3Proofs.or3_list_T_iff. Qed.
+Print Assumptions or3_list_T_iff.
+Theorem and3_list_F_iff : forall l, and3_list l = F <-> In F l.
+Proof. exact B3Proofs.and3_list_F_iff. Qed.
+Print Assumptions and3_list_F_iff.
+
+(* the truth order F < E < T *)
+Theorem le3_refl : forall a, le3 a a = true.
+Proof. exact B3Proofs.le3_refl. Qed.
+Print Assumptions le3_refl.
+Theorem le3_trans : forall a b c, le3 a b = true -> le3 b c = true -> le3 a c = true.
+Proof. exact B3Proofs.le3_trans. Qed.
+Print Assumptions le3_trans.
+Theorem le3_antisym : forall a b, le3 a b = true -> le3 b a = true -> a = b.
+Proof. exact B3Proofs.le3_antisym. Qed.
+Print Assumptions le3_antisym.
+Example le3_ex : le3 F E = true /\ le3 E T = true /\ le3 F T = true /\ le3 T E = false /\ le3 E F = false.
+Proof. repeat split; reflexivity. Qed.
+
+Theorem or3_mono : forall a a' b b',
+  le3 a a' = true -> le3 b b' = true -> le3 (or3 a b) (or3 a' b') = true.
+Proof. exact B3Proofs.or3_mono. Qed.
+Print Assumptions or3_mono.
+Theorem and3_mono : forall a a' b b',
+  le3 a a' = true -> le3 b b' = true -> le3 (and3 a b) (and3 a' b') = true.
+Proof. exact B3Proofs.and3_mono. Qed.
+Print Assumptions and3_mono.
+Theorem not3_anti : forall a b, le3 a b = true -> le3 (not3 b) (not3 a) = true.
+Proof. exact B3Proofs.not3_anti. Qed.
+Print Assumptions not3_anti.
+Theorem diff3_mono_anti : forall b b' s s',
+  le3 b b' = true -> le3 s' s = true -> le3 (diff3 b s) (diff3 b' s') = true.
+Proof. exact B3Proofs.diff3_mono_anti. Qed.
+Print Assumptions diff3_mono_anti.
+Example mono_ex :
+  le3 F E = true /\ le3 E T = true /\ le3 (or3 F E) (or3 E T) = true /\
+  le3 (and3 F E) (and3 E T) = true /\ le3 (not3 E) (not3 F) = true.
+Proof. repeat split; reflexivity. Qed.
+
+(* ================================================================== *)
+(* B. the reducers of internal/graph/check.go                          *)
+(* ================================================================== *)
+
+Theorem In_lift2 : forall op x A B,
+  In x (lift2 op A B) <-> exists a b, In a A /\ In b B /\ In x (op a b).
+Proof. exact V1Proofs.In_lift2. Qed.
+Print Assumptions In_lift2.
+
+Theorem reducers_kleene_union : forall A B,
+  (forall x, In x (lift2 union2 A B) -> exists a b, In a A /\ In b B /\ val x = or3 (val a) (val b)) /\
+  (forall a b, In a A -> In b B -> exists x, In x (lift2 union2 A B) /\ val x = or3 (val a) (val b)).
+Proof. exact V1Proofs.reducers_kleene_union. Qed.
+Print Assumptions reducers_kleene_union.
+Example reducers_kleene_union_ex :
+  lift2 union2 [AFn; AEc] [AFc; AEd] = [AFc; AEd; AEc] /\ lift2 union2 [AEc] [AT] = [AT].
+Proof. split; reflexivity. Qed.
+
+Theorem reducers_kleene_inter : forall A B,
+  (forall x, In x (lift2 inter2 A B) -> exists a b, In a A /\ In b B /\ val x = and3 (val a) (val b)) /\
+  (forall a b, In a A -> In b B -> exists x, In x (lift2 inter2 A B) /\ val x = and3 (val a) (val b)).
+Proof. exact V1Proofs.reducers_kleene_inter. Qed.
+Print Assumptions reducers_kleene_inter.
+Example reducers_kleene_inter_ex :
+  lift2 inter2 [AT; AEc] [AFc; AT] = [AFc; AT; AEc] /\ lift2 inter2 [AFn] [AFc] = [AFn; AFc].
+Proof. split; reflexivity. Qed.
+
+(* exclusion = Kleene difference, EXCEPT for a subtract branch that is "denied, cycle" (F1) *)
+Theorem excl2_kleene_partial : forall A B,
+  omem AFc B = false ->
+  (forall x, In x (lift2 excl2 A B) -> exists a b, In a A /\ In b B /\ val x = diff3 (val a) (val b)) /\
+  (forall a b, In a A -> In b B -> exists x, In x (lift2 excl2 A B) /\ val x = diff3 (val a) (val b)).
+Proof. exact V1Proofs.excl2_kleene_partial. Qed.
+Print Assumptions excl2_kleene_partial.
+Example excl2_kleene_partial_ex :
+  omem AFc [AFn; AEc; AT] = false /\ lift2 excl2 [AT; AEd] [AFn; AEc; AT] = [AT; AEc; AFn; AEd].
+Proof. split; reflexivity. Qed.
+
+Theorem excl2_sub_cycle_refuted :
+  exists a b x, In x (excl2 a b) /\ val x <> diff3 (val a) (val b).
+Proof. exact V1Proofs.excl2_sub_cycle_refuted. Qed.
+Print Assumptions excl2_sub_cycle_refuted.
+
+Theorem excl2_deviation_iff : forall a b,
+  (exists x, In x (excl2 a b) /\ val x <> diff3 (val a) (val b)) <->
+  (b = AFc /\ is_false a = false).
+Proof. exact V1Proofs.excl2_deviation_iff. Qed.
+Print Assumptions excl2_deviation_iff.
+Example excl2_deviation_ex : excl2 AT AFc = [AFc] /\ diff3 (val AT) (val AFc) = T /\ excl2 AEc AFc = [AFc].
+Proof. repeat split; reflexivity. Qed.
+
+(* a child that reports an error instead of its true value never corrupts a decision *)
+Theorem or3_refines : forall a a' b b', refines a a' -> refines b b' -> refines (or3 a b) (or3 a' b').
+Proof. exact B3Proofs.or3_refines. Qed.
+Print Assumptions or3_refines.
+Theorem and3_refines : forall a a' b b', refines a a' -> refines b b' -> refines (and3 a b) (and3 a' b').
+Proof. exact B3Proofs.and3_refines. Qed.
+Print Assumptions and3_refines.
+Theorem diff3_refines : forall a a' b b', refines a a' -> refines b b' -> refines (diff3 a b) (diff3 a' b').
+Proof. exact B3Proofs.diff3_refines. Qed.
+Print Assumptions diff3_refines.
+Theorem lift2_union2_refines : forall A B ta tb,
+  all_refine A ta -> all_refine B tb -> all_refine (lift2 union2 A B) (or3 ta tb).
+Proof. exact V1Proofs.lift2_union2_refines. Qed.
+Print Assumptions lift2_union2_refines.
+Theorem lift2_inter2_refines : forall A B ta tb,
+  all_refine A ta -> all_refine B tb -> all_refine (lift2 inter2 A B) (and3 ta tb).
+Proof. exact V1Proofs.lift2_inter2_refines. Qed.
+Print Assumptions lift2_inter2_refines.
+Theorem lift2_excl2_refines_partial : forall A B ta tb,
+  omem AFc B = false ->
+  all_refine A ta -> all_refine B tb -> all_refine (lift2 excl2 A B) (diff3 ta tb).
+Proof. exact V1Proofs.lift2_excl2_refines_partial. Qed.
+Print Assumptions lift2_excl2_refines_partial.
+(* depth error in one child, true value T; the other child denies: the union may only report the
+   error (never a wrong decision); the intersection may decide `denied`, which is right *)
+Example refines_ex :
+  refines E T /\ refines F F /\ ~ refines F T /\
+  all_refine [AEd] T /\ all_refine [AFn] F /\
+  lift2 union2 [AEd] [AFn] = [AEd] /\ lift2 inter2 [AEd] [AFn] = [AFn].
+Proof.
+  split; [left; reflexivity|]. split; [right; reflexivity|].
+  split; [intros [H|H]; discriminate H|].
+  split; [intros x [H|[]]; subst x; left; reflexivity|].
+  split; [intros x [H|[]]; subst x; right; reflexivity|].
+  split; reflexivity.
+Qed.
+
+(* arrival order: the outcome SET is independent of it *)
+Theorem lift2_union2_comm : forall A B, seteq (lift2 union2 A B) (lift2 union2 B A).
+Proof. exact V1Proofs.lift2_union2_comm. Qed.
+Print Assumptions lift2_union2_comm.
+Theorem lift2_union2_assoc : forall A B C,
+  seteq (lift2 union2 (lift2 union2 A B) C) (lift2 union2 A (lift2 union2 B C)).
+Proof. exact V1Proofs.lift2_union2_assoc. Qed.
+Print Assumptions lift2_union2_assoc.
+Theorem lift2_inter2_comm : forall A B, seteq (lift2 inter2 A B) (lift2 inter2 B A).
+Proof. exact V1Proofs.lift2_inter2_comm. Qed.
+Print Assumptions lift2_inter2_comm.
+Theorem lift2_inter2_assoc : forall A B C,
+  seteq (lift2 inter2 (lift2 inter2 A B) C) (lift2 inter2 A (lift2 inter2 B C)).
+Proof. exact V1Proofs.lift2_inter2_assoc. Qed.
+Print Assumptions lift2_inter2_assoc.
+Theorem union_fold_perm : forall l l',
+  Permutation l l' -> seteq (fold_op union2 [AFn] l) (fold_op union2 [AFn] l').
+Proof. exact V1Proofs.union_fold_perm. Qed.
+Print Assumptions union_fold_perm.
+Theorem inter_fold_perm : forall l l',
+  Permutation l l' -> seteq (fold_op inter2 [AT] l) (fold_op inter2 [AT] l').
+Proof. exact V1Proofs.inter_fold_perm. Qed.
+Print Assumptions inter_fold_perm.
+Example fold_perm_ex :
+  Permutation [[AEc]; [AFc]; [AEd]] [[AFc]; [AEc]; [AEd]] /\
+  fold_op union2 [AFn] [[AEc]; [AFc]; [AEd]] = [AEc; AEd] /\
+  fold_op union2 [AFn] [[AFc]; [AEc]; [AEd]] = [AEc; AEd].
+Proof. split; [apply perm_swap | split; reflexivity]. Qed.
+
+Theorem union_fold_val : forall (l : list oset) (vs : list b3),
+  Forall2 all_val l vs -> all_val (fold_op union2 [AFn] l) (or3_list vs).
+Proof. exact V1Proofs.union_fold_val. Qed.
+Print Assumptions union_fold_val.
+Theorem inter_fold_val : forall (l : list oset) (vs : list b3),
+  Forall2 all_val l vs -> all_val (fold_op inter2 [AT] l) (and3_list vs).
+Proof. exact V1Proofs.inter_fold_val. Qed.
+Print Assumptions inter_fold_val.
+Example fold_val_ex : Forall2 all_val [[AFn; AFc]; [AEc; AEd]] [F; E].
+Proof.
+  constructor; [|constructor; [|constructor]].
+  - intros x [H|[H|[]]]; subst x; reflexivity.
+  - intros x [H|[H|[]]]; subst x; reflexivity.
+Qed.
+
+Theorem union_all_early_exit : forall hs,
+  (forall h, In h hs -> fst (h tt) <> []) ->
+  seteq (fst (union_all hs)) (fst (union_all_full hs)).
+Proof. exact V1Proofs.union_all_early_exit. Qed.
+Print Assumptions union_all_early_exit.
+Example union_all_early_exit_ex :
+  fst (union_all [fun _ => ([AT], notrig); fun _ => ([AEc; AFc], notrig)]) = [AT] /\
+  fst (union_all_full [fun _ => ([AT], notrig); fun _ => ([AEc; AFc], notrig)]) = [AT].
+Proof. split; reflexivity. Qed.
+
+(* ================================================================== *)
+(* C. the reference semantics is well defined                          *)
+(* ================================================================== *)
+
+Theorem lfp_at_fixpoint : forall m conds store subj atoms k fuel v v',
+  lfp_at m conds store subj atoms k fuel v = (v', true) ->
+  forall a, vget (step_at m conds store subj atoms k v') a = vget v' a.
+Proof. exact SemProofs.lfp_at_fixpoint. Qed.
+Print Assumptions lfp_at_fixpoint.
+Example lfp_at_fixpoint_ex :
+  snd (lfp_at f1_model [] f1_store f1_subj f1_atoms 0 12 []) = true /\
+  snd (lfp_at f1_model [] f1_store f1_subj f1_atoms 1 12
+         (fst (lfp_at f1_model [] f1_store f1_subj f1_atoms 0 12 []))) = true.
+Proof. split; vm_compute; reflexivity. Qed.
+
+Theorem eval_rw_mono : forall m conds subj s1 s2 v w,
+  store_incl m conds s1 s2 -> vle v w ->
+  forall o r rw, positive_rw rw = true ->
+  le3 (eval_rw m conds s1 subj v o r rw) (eval_rw m conds s2 subj w o r rw) = true.
+Proof. exact SemProofs.eval_rw_mono. Qed.
+Print Assumptions eval_rw_mono.
+Example eval_rw_mono_ex :
+  positive_rw (Union [Computed 2; Computed 4; TTU 3 2]) = true /\
+  positive_rw (Inter [Computed 4; Diff This (Computed 5)]) = false /\
+  vle [] [((mk_obj 4 1, 2), E)].
+Proof. split; [reflexivity | split; [reflexivity | intro a; apply B3Proofs.le3_F_l]]. Qed.
+
+Theorem lfp_at_converges : forall m conds store subj atoms,
+  positive_model m = true ->
+  forall k fuel, (2 * length (atoms_at m atoms k) + 1 <= fuel)%nat ->
+  snd (lfp_at m conds store subj atoms k fuel []) = true.
+Proof. exact SemProofs.lfp_at_converges. Qed.
+Print Assumptions lfp_at_converges.
+
+Theorem positive_stratified : forall m, positive_model m = true -> stratified m = true.
+Proof. exact SemProofs.positive_stratified. Qed.
+Print Assumptions positive_stratified.
+
+Theorem converged_positive : forall m,
+  positive_model m = true ->
+  forall conds store subj atoms, converged m conds store subj atoms = true.
+Proof. exact SemProofs.converged_positive. Qed.
+Print Assumptions converged_positive.
+Example positive_model_ex :
+  positive_model ex_model = true /\ positive_model f1_model = false /\
+  length (atoms_at ex_model ex_atoms 0) = 8%nat.
+Proof. repeat split; reflexivity. Qed.
+
+Theorem lfp_least : forall m,
+  positive_model m = true ->
+  forall conds store subj atoms w,
+    (forall a, In a atoms -> le3 (eval_atom m conds store subj w a) (vget w a) = true) ->
+    vle (fst (lfp m conds store subj atoms)) w.
+Proof. exact SemProofs.lfp_least. Qed.
+Print Assumptions lfp_least.
+
+Theorem positive_lfp_fixpoint_all : forall m conds store subj atoms,
+  universe_ok m conds store subj atoms = true ->
+  no_empty_inter_model m = true ->
+  positive_model m = true ->
+  forall a, eval_atom m conds store subj (fst (lfp m conds store subj atoms)) a =
+            vget (fst (lfp m conds store subj atoms)) a.
+Proof. exact SemProofs.positive_lfp_fixpoint_all. Qed.
+Print Assumptions positive_lfp_fixpoint_all.
+Example universe_ex :
+  universe_ok ex_model [1] (ex_store ++ ex_bad) ex_subj ex_atoms = true /\
+  no_empty_inter_model ex_model = true /\
+  universe_ok ex_model [1] ex_store ex_subj [(mk_obj 4 1, 6)] = false.
+Proof. repeat split; vm_compute; reflexivity. Qed.
+
+Theorem holds3_invalid_ignored : forall m conds subj atoms s1 bad s2 o r,
+  (forall t, In t bad -> valid_for_read m conds t = false) ->
+  holds3 m conds (s1 ++ bad ++ s2) subj atoms o r = holds3 m conds (s1 ++ s2) subj atoms o r.
+Proof. exact SemProofs.holds3_invalid_ignored. Qed.
+Print Assumptions holds3_invalid_ignored.
+Example holds3_invalid_ignored_ex :
+  forallb (fun t => negb (valid_for_read ex_model [1] t)) ex_bad = true /\ ex_bad <> [] /\
+  forallb (valid_for_read ex_model [1]) ex_store = true.
+Proof. split; [vm_compute; reflexivity | split; [discriminate | vm_compute; reflexivity]]. Qed.
+
+Theorem holds3_store_perm : forall m conds subj atoms s1 s2 o r,
+  Permutation s1 s2 ->
+  holds3 m conds s1 subj atoms o r = holds3 m conds s2 subj atoms o r.
+Proof. exact SemProofs.holds3_store_perm. Qed.
+Print Assumptions holds3_store_perm.
+Example holds3_store_perm_ex :
+  Permutation f1_store (rev f1_store) /\
+  holds3 f1_model [] (rev f1_store) f1_subj f1_atoms (mk_obj 4 1) 4 = T.
+Proof. split; [apply Permutation_rev | vm_compute; reflexivity]. Qed.
+
+Theorem holds3_mono_tuples : forall m conds subj atoms,
+  positive_model m = true ->
+  forall s1 s2 o r,
+    store_incl m conds s1 s2 ->
+    le3 (holds3 m conds s1 subj atoms o r) (holds3 m conds s2 subj atoms o r) = true.
+Proof. exact SemProofs.holds3_mono_tuples. Qed.
+Print Assumptions holds3_mono_tuples.
+Theorem holds3_mono_add : forall m conds subj atoms,
+  positive_model m = true ->
+  forall s extra o r,
+    le3 (holds3 m conds s subj atoms o r) (holds3 m conds (s ++ extra) subj atoms o r) = true.
+Proof. exact SemProofs.holds3_mono_add. Qed.
+Print Assumptions holds3_mono_add.
+(* without the group:1#member@user:1 tuple nothing reaches doc:1#viewer; with it the value is T *)
+Example holds3_mono_add_ex :
+  holds3 ex_model [1] (tl ex_store) ex_subj ex_atoms (mk_obj 4 1) 2 = F /\
+  holds3 ex_model [1] (tl ex_store ++ [hd (mk_tuple (mk_obj 0 0) 0 (SWild 0) 0 F) ex_store])
+         ex_subj ex_atoms (mk_obj 4 1) 2 = T.
+Proof. split; vm_compute; reflexivity. Qed.
+
+(* ================================================================== *)
+(* D. algorithm versus specification                                   *)
+(* ================================================================== *)
+
+Theorem check_no_fuel : forall m conds store subj pathx maxdepth fuel o r,
+  ((maxdepth + 1) * (max_rels m + 2) <= fuel)%nat ->
+  ~ In AFuel (fst (check_top m conds store subj pathx maxdepth fuel o r)).
+Proof. exact V1Proofs.check_no_fuel. Qed.
+Print Assumptions check_no_fuel.
+Example check_no_fuel_ex :
+  max_rels ex_model = 5%nat /\
+  fst (check_top ex_model [1] ex_store ex_subj ex_pathx 3 28 (mk_obj 4 1) 6) = [AT] /\
+  fst (check_top ex_model [1] ex_store ex_subj ex_pathx 3 2 (mk_obj 4 1) 6) = [AFuel].
+Proof. repeat split; vm_compute; reflexivity. Qed.
+
+(* the outcome set is never empty (so the early exit of union_all is unobservable in `check`) *)
+Theorem check_nonempty : forall m conds store subj pathx maxdepth fuel depth visited o r,
+  fst (check m conds store subj pathx maxdepth fuel depth visited o r) <> [].
+Proof. exact V1Proofs.check_nonempty. Qed.
+Print Assumptions check_nonempty.
+
+(* every `allowed` is forced in every pre-fixpoint of the specification's step operator *)
+Theorem check_sound_positive : forall m conds store subj pathx maxdepth v,
+  positive_model m = true ->
+  (forall a, le3 (eval_atom m conds store subj v a) (vget v a) = true) ->
+  forall fuel depth visited o r,
+    In AT (fst (check m conds store subj pathx maxdepth fuel depth visited o r)) ->
+    atomval subj v o r = T.
+Proof. exact V1Proofs.check_sound_positive. Qed.
+Print Assumptions check_sound_positive.
+
+Theorem check_sound_positive_holds3 :
+  forall m conds store subj pathx maxdepth atoms fuel o r,
+    positive_model m = true ->
+    no_empty_inter_model m = true ->
+    universe_ok m conds store subj atoms = true ->
+    In AT (fst (check_top m conds store subj pathx maxdepth fuel o r)) ->
+    holds3 m conds store subj atoms o r = T.
+Proof. exact V1Proofs.check_sound_positive_holds3. Qed.
+Print Assumptions check_sound_positive_holds3.
+(* the hypotheses hold of a model with union, intersection, tuple-to-userset, wildcard, a tuple
+   cycle, conditions in all three states and an invalid tuple; Check returns `allowed` (and
+   the F2 trigger is raised on the way: soundness of `allowed` does not depend on it) *)
+Example check_sound_positive_holds3_ex :
+  positive_model ex_model = true /\ no_empty_inter_model ex_model = true /\
+  universe_ok ex_model [1] (ex_store ++ ex_bad) ex_subj ex_atoms = true /\
+  check_top ex_model [1] (ex_store ++ ex_bad) ex_subj ex_pathx 25 30 (mk_obj 4 1) 6 =
+    ([AT], {| tr_excl_sub_cycle := false; tr_swallow := true |}) /\
+  holds3 ex_model [1] (ex_store ++ ex_bad) ex_subj ex_atoms (mk_obj 4 1) 6 = T /\
+  holds3 ex_model [1] (ex_store ++ ex_bad) ex_subj ex_atoms (mk_obj 4 1) 3 = F.
+Proof. repeat split; vm_compute; reflexivity. Qed.
+
+Theorem C01_allowed_positive_partial :
+  forall m conds store subj pathx atoms maxdepth fuel o r,
+    positive_model m = true ->
+    no_empty_inter_model m = true ->
+    universe_ok m conds store subj atoms = true ->
+    In AT (fst (check_top m conds store subj pathx maxdepth fuel o r)) ->
+    decision_agrees AT (holds3 m conds store subj atoms o r) /\
+    stratified m = true /\ converged m conds store subj atoms = true.
+Proof. exact V1Proofs.C01_allowed_positive_partial. Qed.
+Print Assumptions C01_allowed_positive_partial.
+
+(* ================================================================== *)
+(* E. the full statement is false of the code as it is                  *)
+(* ================================================================== *)
+
+Theorem C01_refuted_excl_sub_cycle :
+  exists m conds store subj pathx atoms o r,
+    stratified m = true /\
+    converged m conds store subj atoms = true /\
+    universe_ok m conds store subj atoms = true /\
+    pathx_full m pathx = true /\
+    forallb (valid_for_read m conds) store = true /\
+    check_top m conds store subj pathx 25 30 o r =
+      ([AFc], {| tr_excl_sub_cycle := true; tr_swallow := false |}) /\
+    holds3 m conds store subj atoms o r = T.
+Proof. exact V1Proofs.C01_refuted_excl_sub_cycle. Qed.
+Print Assumptions C01_refuted_excl_sub_cycle.
+
+Theorem C01_refuted_cond_err_swallowed :
+  exists m conds store subj pathx atoms o r,
+    stratified m = true /\
+    converged m conds store subj atoms = true /\
+    universe_ok m conds store subj atoms = true /\
+    pathx_full m pathx = true /\
+    forallb (valid_for_read m conds) store = true /\
+    check_top m conds store subj pathx 25 30 o r =
+      ([AT], {| tr_excl_sub_cycle := false; tr_swallow := true |}) /\
+    holds3 m conds store subj atoms o r = E.
+Proof. exact V1Proofs.C01_refuted_cond_err_swallowed. Qed.
+Print Assumptions C01_refuted_cond_err_swallowed.
+
+Theorem C01_full_refuted : ~ C01_full_statement.
+Proof. exact V1Proofs.C01_full_refuted. Qed.
+Print Assumptions C01_full_refuted.
